@@ -16,6 +16,9 @@
 //	      bindviews  shared bindnode node (explicit schema): type and representation views, gendemo node
 //	      walkcfg    shared compiled selector + Config with Ctx and chooser set
 //	      walklazy   shared Config{} with nil Ctx: Config.init() fills it in            (known race)
+//	      walknoctx / walknochooser   shared Config with exactly ONE of Ctx / chooser nil
+//	      (all four walk kinds: WalkMatching, WalkAdv, Focus, Get, WalkTransforming, FocusedTransform; after every call the
+//	      shared Config must describe itself field by field as it did when it was made)
 //	      load       shared LinkSystem over a read-only store: Load, ComputeLink
 //	      proto      fresh nodes from shared prototypes / type system (basicnode, bindnode, gendemo)
 //	      wrapschema bindnode.Wrap with an explicit schema type
@@ -207,6 +210,7 @@ type world struct {
 	recType   schema.Type
 	recProt   schema.TypedPrototype
 	stream    datamodel.Node
+	cfgDesc   string             // walk kinds: the shared Config as described when it was made
 	ts2       *schema.TypeSystem // clonets: the shared type system others clone out of
 	ts2Desc   string             // … as described when it was made
 	stopSel   selector.Selector  // stopat: the one compiled selector
@@ -281,6 +285,47 @@ func allSelector() selector.Selector {
 	}
 	return s
 }
+
+// describeValue: a value field by field — nil-ness and identity of pointers, funcs, interfaces, maps and
+// slices, the value of everything else — so that two descriptions are equal iff nobody stored to it
+func describeValue(v reflect.Value) string {
+	switch v.Kind() {
+	case reflect.Struct:
+		var sb strings.Builder
+		sb.WriteString("{")
+		for i := 0; i < v.NumField(); i++ {
+			sb.WriteString(v.Type().Field(i).Name + "=" + describeValue(v.Field(i)) + " ")
+		}
+		sb.WriteString("}")
+		return sb.String()
+	case reflect.Func, reflect.Ptr, reflect.Map, reflect.Chan, reflect.UnsafePointer:
+		if v.IsNil() {
+			return "nil"
+		}
+		return fmt.Sprintf("%s@%x", v.Kind(), v.Pointer())
+	case reflect.Slice:
+		if v.IsNil() {
+			return "nil"
+		}
+		return fmt.Sprintf("slice@%x/%d", v.Pointer(), v.Len())
+	case reflect.Interface:
+		if v.IsNil() {
+			return "nil"
+		}
+		return v.Elem().Type().String() + ":" + describeValue(v.Elem())
+	case reflect.Bool:
+		return strconv.FormatBool(v.Bool())
+	case reflect.Int, reflect.Int8, reflect.Int16, reflect.Int32, reflect.Int64:
+		return strconv.FormatInt(v.Int(), 10)
+	case reflect.Uint, reflect.Uint8, reflect.Uint16, reflect.Uint32, reflect.Uint64:
+		return strconv.FormatUint(v.Uint(), 10)
+	case reflect.String:
+		return strconv.Quote(v.String())
+	}
+	return v.Kind().String()
+}
+
+func describeCfg(c *traversal.Config) string { return describeValue(reflect.ValueOf(c).Elem()) }
 
 // describeTS: everything a reader can learn from a type system by its accessors, with the identities
 // that tie its parts together: a type belongs to this type system, a struct field belongs to its
@@ -426,17 +471,24 @@ type BMap {String:Int}
 		}
 		ma.Finish()
 		w.nodes = []datamodel.Node{tn, tn.(schema.TypedNode).Representation(), tm, tm.(schema.TypedNode).Representation(), gb.Build()}
-	case "walkcfg", "walklazy":
+	case "walkcfg", "walklazy", "walknoctx", "walknochooser":
 		n, _ := lib.BuildBasic(valOf("m2,k61,a3,i1,i2,s78,k62,m1,k63,t"))
 		w.nodes = []datamodel.Node{n, unionNode()}
 		for _, nf := range []int{3, 5, 6, 7, 9} {
 			w.sels = append(w.sels, unionSelector(nf))
 		}
-		if kind == "walkcfg" {
-			w.cfg = &traversal.Config{Ctx: context.Background(), LinkTargetNodePrototypeChooser: chooser}
-		} else {
+		// {Ctx nil / set} x {chooser nil / set}; the LinkSystem (never defaulted) is set in two of them
+		switch kind {
+		case "walkcfg":
+			w.cfg = &traversal.Config{Ctx: context.Background(), LinkTargetNodePrototypeChooser: chooser, LinkSystem: cidlink.DefaultLinkSystem()}
+		case "walklazy":
 			w.cfg = &traversal.Config{}
+		case "walknoctx":
+			w.cfg = &traversal.Config{LinkTargetNodePrototypeChooser: chooser, LinkSystem: cidlink.DefaultLinkSystem()}
+		default:
+			w.cfg = &traversal.Config{Ctx: context.Background()}
 		}
+		w.cfgDesc = describeCfg(w.cfg)
 	case "clonets":
 		ts2, err := ipld.LoadSchemaBytes([]byte(`
 type Point struct {
@@ -698,7 +750,7 @@ func (w *world) kindOps(kind string, k int) []string {
 				add(errStr(datamodel.Copy(n, nb)))
 				add(fmt.Sprint(datamodel.DeepEqual(n, w.nodes[(i+k)%len(w.nodes)])))
 			}
-		case "walkcfg", "walklazy":
+		case "walkcfg", "walklazy", "walknoctx", "walknochooser":
 			cnt := 0
 			e := traversal.Progress{Cfg: w.cfg}.WalkMatching(w.nodes[0], w.sel, func(traversal.Progress, datamodel.Node) error { cnt++; return nil })
 			add(errStr(e) + strconv.Itoa(cnt))
@@ -711,11 +763,47 @@ func (w *world) kindOps(kind string, k int) []string {
 				})
 				add(errStr(e) + strconv.Itoa(len(visited)) + ":" + strings.Join(visited, ","))
 			}
+			cfgSame := func() string { return "cfg:" + strconv.FormatBool(describeCfg(w.cfg) == w.cfgDesc) }
+			add(cfgSame())
 			n, e := traversal.Progress{Cfg: w.cfg}.Get(w.nodes[0], datamodel.ParsePath("a/1"))
 			add(errStr(e))
 			if e == nil {
 				add(dumpStr(n))
 			}
+			add(cfgSame())
+			// the other entry points, each followed by a look at the shared Config
+			e = traversal.Progress{Cfg: w.cfg}.Focus(w.nodes[0], datamodel.ParsePath("b/c"), func(_ traversal.Progress, fn datamodel.Node) error {
+				add(dumpStr(fn))
+				return nil
+			})
+			add(errStr(e) + cfgSame())
+			adv := 0
+			e = traversal.Progress{Cfg: w.cfg}.WalkAdv(w.nodes[0], w.sel, func(traversal.Progress, datamodel.Node, traversal.VisitReason) error { adv++; return nil })
+			add(errStr(e) + strconv.Itoa(adv) + cfgSame())
+			if k%2 == 0 {
+				runtime.Gosched()
+			}
+			tn, e := traversal.Progress{Cfg: w.cfg}.WalkTransforming(w.nodes[0], w.sel, func(_ traversal.Progress, x datamodel.Node) (datamodel.Node, error) {
+				if x.Kind() == datamodel.Kind_Int {
+					return basicnode.NewInt(int64(k)), nil
+				}
+				return x, nil
+			})
+			add(errStr(e) + cfgSame())
+			if e == nil {
+				add(dumpStr(tn))
+			}
+			fn2, e := traversal.Progress{Cfg: w.cfg}.FocusedTransform(w.nodes[0], datamodel.ParsePath("a/0"), func(traversal.Progress, datamodel.Node) (datamodel.Node, error) {
+				return basicnode.NewString("t" + strconv.Itoa(k)), nil
+			}, false)
+			add(errStr(e) + cfgSame())
+			if e == nil {
+				add(dumpStr(fn2))
+			}
+			add(dumpStr(w.nodes[0])) // the shared node itself is what it was
+			w.finalsMu.Lock()
+			w.finals = append(w.finals, cfgSame)
+			w.finalsMu.Unlock()
 		case "load":
 			// Load, ComputeLink, and the raw paths: the blocks LoadRaw / LoadPlusRaw hand back are KEPT and
 			// re-verified against their links while this and the other goroutines go on loading other blocks
@@ -955,13 +1043,13 @@ func child(kind string, procs, n int, spec string, seed uint64) {
 	for _, f := range w.finals { // what the goroutines kept must still be what they were given
 		if r := f(); !strings.HasSuffix(r, ":true") {
 			same = false
-			if strings.HasPrefix(r, "ts:") {
+			if strings.HasPrefix(r, "ts:") || strings.HasPrefix(r, "cfg:") {
 				changed = true
 			}
 		}
 	}
 	for _, f := range ref.finals { // … and a shared object must be what it was after the sequential run as well
-		if r := f(); strings.HasPrefix(r, "ts:") && !strings.HasSuffix(r, ":true") {
+		if r := f(); (strings.HasPrefix(r, "ts:") || strings.HasPrefix(r, "cfg:")) && !strings.HasSuffix(r, ":true") {
 			changed = true
 		}
 	}
@@ -1196,7 +1284,7 @@ func main() {
 	next := func() string { id++; return fmt.Sprintf("s%d", id) }
 	// the fixed scenario kinds under every GOMAXPROCS
 	for _, p := range []int{1, 2, 16} {
-		for _, kind := range []string{"bindviews", "walkcfg", "load", "proto", "wrapschema", "stream", "walklazy", "wrapinfer", "clonets", "stopat"} {
+		for _, kind := range []string{"bindviews", "walkcfg", "load", "proto", "wrapschema", "stream", "walklazy", "wrapinfer", "clonets", "stopat", "walknoctx", "walknochooser"} {
 			run(next(), kind, p, 2+rng.Intn(6), "-")
 		}
 	}
